@@ -1,7 +1,11 @@
 """C14 — FileDescriptor write buffering and producers: H-tie (hand-written model coq/C14; the real
 abstract.FileDescriptor is subclassed with a scripted writeSomeData and driven by a minimal in-harness reactor).
 
-case = {"sl": SEND_LIMIT, "bs": bufferSize, "scale": F, "ops": [op...]}
+case = {"sl": SEND_LIMIT, "bs": bufferSize, "scale": F, "pre": bool, "ops": [op...]}
+  "pre": the descriptor starts like a client transport whose connection is not yet established (connected = 0 and
+  disconnected = 0, as tcp.Client / unix.Client before doConnect succeeds, reachable as connector.transport); the op
+  ["connect"] then does what BaseClient.doConnect / _connectDone do: stopReading, stopWriting, connected = 1,
+  startReading.  Bytes written before that are NOT "written while connected": none may reach the OS.
   op   = ["w", hex] | ["ws", [hex...]] | ["reg", streaming, [[pact...]...]] | ["unreg"] | ["lose"] | ["losew"]
        | ["wst", [hex...]]   writeSequence(tuple)
        | ["wsi", kind, [hex...]]   writeSequence(one-shot or other iterable): kind = "gen" (generator), "iter"
@@ -136,8 +140,10 @@ def impl(case) -> str:
                     act(a)
 
     fd = FD(reactor)
-    fd.connected = 1
-    fd.startReading()
+    established = [not case.get("pre", False)]
+    if established[0]:
+        fd.connected = 1
+        fd.startReading()
     nextid = [0]
     pool = [[], [], []]          # caller-owned list objects handed to writeSequence as they are
     shadow = [[], [], []]        # what the caller put into them
@@ -209,8 +215,15 @@ def impl(case) -> str:
                 if r is not None:
                     disconnect(r)
         elif k == "drop":
-            if not fd.lost:
+            if not fd.lost and established[0]:
                 disconnect(main.CONNECTION_LOST)
+        elif k == "connect":
+            if not established[0] and not fd.lost:
+                established[0] = True
+                fd.stopReading()
+                fd.stopWriting()
+                fd.connected = 1
+                fd.startReading()
         else:
             raise AssertionError(op)
         out.append((",".join(ev) or "-") + "|" + ("W" if fd in reactor.writers else "") +
@@ -241,9 +254,11 @@ def oracle(case, obs):
 
     lost_soon = False    # a producer action called loseConnection after the write side was closed
 
+    up = [not case.get("pre", False)]      # the connection has been established
+
     def on_write(datas, where):
         nonlocal written, wrote_since_reg
-        if datas and not lost and not wclosed and not lost_soon:
+        if datas and up[0] and not lost and not wclosed and not lost_soon:
             written += b"".join(datas)
             wrote_since_reg = True
 
@@ -264,7 +279,7 @@ def oracle(case, obs):
                 cur = None
                 told = False
             elif a[0] == "lose":
-                if not lost:
+                if not lost and up[0]:
                     if wclosed and not losing:
                         lost_soon = True
                     losing = True
@@ -353,6 +368,9 @@ def oracle(case, obs):
                 return Failure(case, where + "writeSequence accepted a sequence with a str element", "bad-element-accepted")
         elif k == "wsp":
             on_write(list(opool[op[1]]), where)          # what the list held when it was handed over
+        elif k == "connect":
+            if not lost:
+                up[0] = True
         elif k == "pa":
             opool[op[1]].append(bytes.fromhex(op[2]))
         elif k == "pc":
@@ -361,7 +379,7 @@ def oracle(case, obs):
             cur = None
             told = False
         elif k == "lose":
-            if not lost:
+            if not lost and up[0]:
                 losing = True
         elif k == "reg" and "E" not in evs and not lost:
             cur = nextid
@@ -547,6 +565,27 @@ def _gen_case(rng, sl, bs, nops, big, scale=1):
     c = {"sl": sl, "bs": bs, "ops": ops}
     if scale != 1:
         c["scale"] = scale
+    if rng.random() < 0.25:
+        # a client transport: some calls arrive before the connection is established
+        pre_ops = []
+        for _ in range(rng.randrange(0, 5)):
+            r = rng.random()
+            if r < 0.45:
+                pre_ops.append(["w", data.take(rng.randrange(1, 4))])
+            elif r < 0.6:
+                pre_ops.append(["ws", [data.take(rng.randrange(1, 3)) for _ in range(rng.randrange(1, 3))]])
+            elif r < 0.7:
+                pre_ops.append(["wsi", rng.choice(["gen", "deque"]), [data.take(2)]])
+            elif r < 0.8:
+                pre_ops.append(["reg", rng.random() < 0.5, [[["w", data.take(2)]], [["w", data.take(1)]]]])
+            elif r < 0.88:
+                pre_ops.append(["dw", rng.choice([0, 1, 99])])
+            else:
+                pre_ops.append(rng.choice([["lose"], ["losew"], ["unreg"], ["drop"]]))
+        c["pre"] = True
+        c["ops"] = pre_ops + [["connect"]] + ops
+        if rng.random() < 0.1:
+            c["ops"] = pre_ops + ops          # never connected at all
     return c
 
 
@@ -589,6 +628,11 @@ def corpus():
         # stale producerPaused flag carried to the next producer
         {"sl": 9, "bs": 1, "ops": [["reg", True, []], ["w", "0102"], ["unreg"], ["reg", True, [[["w", "03"]]]],
                                    ["dw", 9], ["dw", 9]]},
+        # a client transport: what is written before the connection is established never reaches the OS
+        {"sl": 4, "bs": 9, "pre": True, "ops": [["w", "7071"], ["ws", ["72"]], ["dw", 99], ["connect"], ["w", "61"],
+                                                 ["dw", 99], ["connect"], ["lose"], ["dw", 99]]},
+        {"sl": 4, "bs": 2, "pre": True, "ops": [["reg", True, [[["w", "62"]]]], ["w", "707172"], ["connect"],
+                                                 ["w", "616263"], ["dw", 99], ["dw", 99]]},
         # one-shot iterables: every byte must be buffered exactly once; a bad element buffers nothing
         {"sl": 4, "bs": 9, "ops": [["wsi", "gen", ["6162", "63"]], ["dw", 99], ["wsi", "iter", ["64"]],
                                    ["wsi", "map", ["65", "66"]], ["wsi", "deque", ["67"]], ["dw", 99],
@@ -631,7 +675,8 @@ def _coq_op(o):
         return f"Register {coq_bool(o[1])} {scr}"
     if k == "dw":
         return f"DoWrite {min(o[1], 4000)}%nat"
-    return {"unreg": "Unregister", "lose": "Lose", "losew": "LoseW", "dwerr": "DoWriteErr", "drop": "Drop"}[k]
+    return {"unreg": "Unregister", "lose": "Lose", "losew": "LoseW", "dwerr": "DoWriteErr", "drop": "Drop",
+            "connect": "Connect"}[k]
 
 
 def to_coq(case):
@@ -655,7 +700,8 @@ def to_coq(case):
             terms.append("Write (@nil N)")          # TypeError, nothing buffered
         else:
             terms.append(_coq_op(o))
-    return f"({coq_nat(case['sl'])}, {coq_nat(case['bs'])}, {coq_list(terms, 'op')})"
+    return (f"({coq_bool(case.get('pre', False))}, {coq_nat(case['sl'])}, {coq_nat(case['bs'])}, "
+            f"{coq_list(terms, 'op')})")
 
 
 def shrink(case):
